@@ -129,7 +129,7 @@ def classify(res, unit):
             rec["tool"] = True
             undecided.append(rec)
             continue
-        if kind in ("rlimit", "other", "recommends"):
+        if kind in ("rlimit", "other", "recommends", "invariant"):
             # not an obligation failure: resource limit, unsupported construct, tool message
             rec["tool"] = kind != "rlimit"
             undecided.append(rec)
